@@ -331,6 +331,7 @@ func checkC07(rep *Report, rng *Rng, tier string) {
 	rep.Rule = "fault enumeration on seeded histories over a re-opened (nothing cached) file: (A) for chosen calls every file call k=1..all is made to fail in turn, writes also torn at 1, len/2, len-1 bytes (thorough: every length), each followed by: error returned, no panic/hang, bytes below the store size unchanged, contents of every handle equal to the pre-fault reference, a fresh Store on a copy of the image shows the last Flush; (B) random single faults on about half of the calls of a longer history with the contents verified only at the end (keeps the lazy/unloaded state alive so stale recycling marks surface); fault-free continuation compared with the reference; non-trivial = at least one fault fired, distinct = different history"
 	st := &c07Stats{ByKind: map[string]int{}, ByOp: map[string]int{}}
 	report := func(c c07Case, m *Mismatch) bool {
+		rep.Pending(map[string]interface{}{"case": c, "mismatch": m})
 		if m.Kind == "hang" {
 			rep.Violation("", false, map[string]interface{}{"case": c, "mismatch": m})
 			os.Exit(rep.Finish())
